@@ -678,15 +678,20 @@ class HaltTiming(Harness):
         out.append({"L": 1, "layout": [[3, True]], "M": 2})
         if tier == "thorough":
             out.append({"L": 1, "layout": [[5, True]], "M": 1, "second": True})
+            # two resting bids swept by one sell of 2 lots (several fills in the halting round), then a second
+            # excursion after the resumption
+            out.append({"L": 1, "layout": [[5, True]], "M": 1, "second": True, "sweep": True})
         return out
 
     def run(self, g, case):
         markets = {f"M{i}": {"class": "Market", "tickSize": 1, "marketPrice": 300} for i in range(case["M"])}
         sessions = [rn.session(i, n, True, e, maxNormalOrders=2) for i, (n, e) in enumerate(case["layout"])]
         sessions[0]["events"] = ["HALT"]
-        st = rn.base_settings(n_agents=2, sessions=sessions, markets=markets,
+        st = rn.base_settings(n_agents=3 if case.get("sweep") else 2, sessions=sessions, markets=markets,
                               extra={"HALT": {"class": "TradingHaltRule", "targetMarkets": ["M0"],
                                               "triggerChangeRate": 0.5, "haltingTimeLength": case["L"]}})
+        for sd in st["simulation"]["sessions"]:
+            sd["maxNormalOrders"] = 3
         # step 0 is left without orders so that "the time-0 price" is the configured 300 (keeps the halt line
         # linear in the solver variables); step 1 has solver-chosen prices (does the trade cross the moving halt
         # line or not), later steps quote at 300 on both sides (a fill whenever the market is matching)
@@ -694,6 +699,8 @@ class HaltTiming(Harness):
                 "price_hi": 1000, "active_from": 1,
                 "price_by_time": {"1": "sym", "default": 300} if not case.get("second") else
                 {"1": "sym", "3": "sym", "default": 300}}
+        if case.get("sweep"):
+            menu["per_agent"] = {"0": {"side": "B"}, "1": {"side": "S", "vol_fixed": 2}, "2": {"side": "B"}}
         state = {"halts": 0, "halted_at": None, "obs": [], "at_fill": {}}
         r = None
 
